@@ -14,6 +14,6 @@ grep -rl '/repo/' $MS/sim/Cargo.toml $MS/sim/src | xargs sed -i "s#\"/repo/#\"$M
 ( cd $MS/sim && CARGO_TARGET_DIR=$MS/target cargo build --release --offline 2>&1 | grep -E "^error" -A8 | head -30 )
 mkdir -p $MS/out
 cp /verif/known_findings.json $MS/out/
-VERIF_ROOT=$MS/out $MS/target/release/simctl check "$PROP" "$TIER" 2>&1 | grep -v "^  note" | cut -c1-400
+VERIF_ROOT=$MS/out $MS/target/release/simctl check "$PROP" "$TIER" 2>&1 | grep -a -v "^  note" | cut -c1-400
 echo "exit=$?"
 git -C $MR checkout -q -- .
